@@ -343,6 +343,26 @@ def rescaling_sampling(tier, rng, rep):
                     rep.fail("polygon_edges_rescaling", "ideal endpoints of the polygon's edges", inp)
         rep.attempt("rescaling_runs", inp, body)
         rep.case(key=(t,), nontrivial=bool(np.any(fa < 0) or np.any(fb < 0)), sample=inp if t == 0 else None)
+        if n == 2 and shape == ():
+            # boundary arcs between two ideal points: the arc (ordered endpoints, Poincare circle and angles) does not depend on
+            # the representatives of its endpoints
+            t1, t2 = rng.uniform(0, 2 * np.pi, 2)
+            if abs(np.sin((t1 - t2) / 2)) > 0.05:
+                u1, u2 = np.array([1.0, np.cos(t1), np.sin(t1)]), np.array([1.0, np.cos(t2), np.sin(t2)])
+                inpa = {"angles": [t1, t2], "factors": [float(fa.ravel()[0]), float(fb.ravel()[0])]}
+
+                def arcs():
+                    A0 = h.BoundaryArc(h.IdealPoint(u1.copy()), h.IdealPoint(u2.copy()))
+                    A1 = h.BoundaryArc(h.IdealPoint(float(fa.ravel()[0]) * u1), h.IdealPoint(float(fb.ravel()[0]) * u2))
+                    e0, e1 = A0.endpoint_coords("klein"), A1.endpoint_coords("klein")
+                    if not np.all(np.abs(e0 - e1) <= 1e-7):
+                        rep.fail("boundary_arc_rescaling", f"ordered endpoints {e1.tolist()} vs {e0.tolist()}", inpa); return
+                    c0, c1 = A0.circle_parameters(degrees=False), A1.circle_parameters(degrees=False)
+                    for a_, b_ in zip(c0, c1):
+                        if not np.all(np.abs(np.asarray(a_, dtype=float) - np.asarray(b_, dtype=float)) <= 1e-7 * (1 + np.max(np.abs(np.asarray(a_, dtype=float))))):
+                            rep.fail("boundary_arc_rescaling", f"circle parameters {c1} vs {c0}", inpa); return
+                rep.attempt("boundary_arc_runs", inpa, arcs)
+                rep.case(key=(t, "arc"), nontrivial=True)
 
 
 @bounded(P, "representatives_with_lightlike_difference", functions=[H + "Segment._compute_aux_data", H + "Segment.circle_parameters", H + "Polygon.__init__"],
